@@ -98,12 +98,15 @@ Proof.
     + eapply (I_CF I j); eauto. }
   assert (H9 : (st r' = READY \/ in_start (pc r') = true) -> forall k, In (DJob k) (deps W j) -> st (jobs s k) = DONE).
   { intros [R|IS] k Hk.
-    + destruct As as [X|[(_&X&_)|(_&_&U0&_)]]; try congruence.
-      * apply (I_RD I j k); auto. left. fold r. congruence.
+    + destruct As as [X|[(_&X&_)|(_&_&U0&_)]].
+      * apply (I_RD I j k); auto. left. fold r. rewrite <- X. exact R.
+      * rewrite X in R. discriminate.
       * rewrite U' in U0.
-        destruct (@In_nth_error_len _ _ (deps W j) (cur r') (DJob k) Hk) as (i' & y & Y1 & Y2); [congruence|].
-        assert (y = DOK) by (eapply count_nok_zero; eauto; lia). subst y. eapply CO'; eauto.
-    + apply (I_RD I j k); auto. right. fold r. destruct PC as [X|(_&X)]; [congruence|]. rewrite X in IS; discriminate. }
+        assert (LenE : length (cur r') = length (deps W j)) by (rewrite Alen; exact Len).
+        destruct (@In_nth_error_len _ _ (deps W j) (cur r') (DJob k) Hk LenE) as (i' & y & Y1 & Y2).
+        assert (Z0 : count_nok (cur r') = 0%nat) by lia.
+        assert (y = DOK) by (apply (@count_nok_zero (cur r') Z0 i' y Y2)). subst y. eapply CO'; eauto.
+    + apply (I_RD I j k); auto. right. fold r. destruct PC as [X|(_&X)]; [rewrite <- X; exact IS|]. rewrite X in IS; discriminate. }
   assert (H10 : fdep r' = true -> exists k, In (DJob k) (deps W j) /\ st (jobs s k) = ERROR).
   { intros FD. destruct Af2 as [X|(NF & X)].
     + apply (I_FD I j). fold r. congruence.
